@@ -2,7 +2,8 @@
    matching, with the concrete semantics csem and the identity order oracle) on the rule sets
    and requests the Go harness ran through real WAFs, and compares the fired rules (in order)
    and their match data (as multisets: Go's map iteration order is not observable here). *)
-From Verif Require Import Base Transform Match.
+From Verif Require Import Base Transform CaseMap Match MatchFold.
+From VerifGen Require Import FactsC14.
 Open Scope N_scope.
 
 Inductive case :=
@@ -11,6 +12,10 @@ Inductive case :=
   | CaseR (q : request) (rules : list rule) (rms : list removal) (obs : list fired)
   (* the tiny key-pattern matcher against Go's regexp on the pattern's source text *)
   | CRx (p : rxpat) (src : bytes) (lowsrc : bytes) (k : bytes) (res : bool)
+  (* a case-insensitive NamedCollection filled with (name, value) pairs of ARBITRARY bytes, then
+     FindString(k) (names = false) or its Names view (names = true): MatchFold's collections with
+     strings.ToLower = cm_fold lower_table (table regenerated from Go's unicode package) *)
+  | CFold (l : list entry) (names : bool) (k : bytes) (obs : list entry)
   (* one operator evaluation against the registered Go operator *)
   | COp (o : op) (v : bytes) (res : bool).
 
@@ -45,6 +50,11 @@ Definition ok (c : case) : bool :=
   | CRx p src lowsrc k res =>
     bytes_eqb (rx_small_src p) src && bytes_eqb (rx_small_src (rx_small_low p)) lowsrc
     && Bool.eqb (rx_small p k) res
+  | CFold l names k obs =>
+    let m := fmap_of_list (cm_fold lower_table) l in
+    perm_eqb (fun a b : entry => bytes_eqb (fst a) (fst b) && bytes_eqb (snd a) (snd b))
+             (if names then names_view (ffind_string (cm_fold lower_table) m k)
+              else ffind_string_map (cm_fold lower_table) m k) obs
   | COp o v res => Bool.eqb (op_small o v) res
   end.
 
